@@ -22,6 +22,13 @@ def world():
     for k in range(2):
         for f in ('ref_type', 'ref_size', 'duration', 'starts_with_SAP', 'SAP_type', 'SAP_delta_time'):
             w[f'r{k}_{f}'] = z3.Int(f'r{k}_{f}')
+    for nm in ('p0', 'fields_len', 'child0_size', 'child1_size', 'child2_size'):
+        w[nm] = z3.Int(nm)
+    w['stream_end'] = lambda st: st.end()
+    w['at_end'] = lambda st: z3.BoolVal(st.cursor is None)
+    w['size_field'] = lambda st, pos: st.value_at(pos) if st.value_at(pos) is not None else z3.IntVal(-1)
+    w['prefix_untouched'] = lambda st: z3.BoolVal(st.chunks[0][1] == ('existing',))
+
     def bytes_value(p):
         if isinstance(p, bytes):
             return z3.IntVal(int.from_bytes(p, 'big'))
@@ -389,6 +396,62 @@ TFDT_SETATTR = Contract(
     witness_terms=lambda w: (lambda ev: {k: ev(z3.Int(k)) for k in ('version', 'bmdt', 'value')}),
 )
 
+# ----------------------------------------------------------------------------- C03: two-pass encode, sizes back-patched
+def encode_contract(nchildren, depth):
+    """Mp4Atom.encode (not pre-encoded): position, size, the back-patched size field, child placement.  The recursive
+    child.encode calls are replaced by this very contract (induction over the depth of the tree): a child writes
+    child.size >= 8 bytes starting at the current end, its first four bytes hold child.size."""
+    from pyvc.models.trace import SizedStream
+
+    def env(w):
+        kids = [Obj('Mp4Atom', {'atom_type': 'chld'}) for _ in range(nchildren)]
+        o = Obj('Mp4Atom', {'atom_type': 'moof', '_encoded': None, '_children': PyList(kids) if nchildren else None,
+                            '_fullname': Opaque('name'), 'position': z3.Int('old_position'), 'size': z3.Int('old_size'),
+                            'options': Obj('Options', {'log': Opaque('log'), 'strict': False})})
+        return {'self': o, 'dest': SizedStream(z3.Int('p0')), 'depth': depth, '__kids__': PyList(kids)}
+
+    def encode_fields(eng, e, a, kw):
+        kw['dest'].append_abstract(eng.world['fields_len'], ('fields',))
+
+    def child_encode(eng, e, a, kw):
+        child = eng.eval(e.func.value)
+        out = kw['dest']
+        k = [id(x) for x in eng.lookup('__kids__').items].index(id(child))
+        size = eng.world[f'child{k}_size']
+        child.f['position'] = out.method(eng, 'tell', [], {}, e)
+        child.f['size'] = size
+        out.append_abstract(4, ('value', size))
+        out.append_abstract(size - 4, ('child-body', k))
+        if kw.get('depth') != depth + 1:
+            eng.oblige('call', 'child.encode.depth', z3.BoolVal(False))
+    total = '8 + fields_len' + ''.join(f' + child{k}_size' for k in range(nchildren))
+    ens = [('position_is_where_it_was_written', 'self.position == p0'),
+           ('size_covers_header_fields_children', f'self.size == {total}'),
+           ('stream_ends_after_the_box', 'stream_end(dest) == p0 + self.size and at_end(dest)'),
+           ('size_field_back_patched', 'size_field(dest, p0) == self.size'),
+           ('what_was_there_is_untouched', 'prefix_untouched(dest)')]
+    for k in range(nchildren):
+        prev = 'p0 + 8 + fields_len' if k == 0 else f'__kids__[{k - 1}].position + __kids__[{k - 1}].size'
+        ens.append((f'child{k}_follows', f'__kids__[{k}].position == {prev}'))
+    return Contract(
+        key=f'{MP4}:Mp4Atom.encode', variant=f'{nchildren}children-depth{depth}', props=['C03', 'C04'], env=env,
+        requires=[('stream', 'p0 >= 0 and fields_len >= 0'),
+                  ('children', ' and '.join([f'child{k}_size >= 8' for k in range(nchildren)] or ['True'])),
+                  ('region_32bit_size', f'{total} < {U32}')],
+        models={'self.options.log.debug': lambda eng, e, a, kw: None, 'self.classname': lambda eng, e, a, kw: Opaque('cls'),
+                'self.encode_fields': encode_fields, 'child.encode': child_encode,
+                'self.post_encode_all': lambda eng, e, a, kw: None},
+        modifies=['self.position', 'self.size'],
+        ensures=ens,
+        canaries=['self.size == 8'],
+        witness_terms=lambda w: (lambda ev: {k: ev(z3.Int(k)) for k in ['p0', 'fields_len', 'old_position', 'old_size'] +
+                                             [f'child{k}_size' for k in range(nchildren)]}),
+    )
+
+
+ENCODE = [encode_contract(0, 1), encode_contract(2, 0), encode_contract(3, 2)]
+
+
 # ----------------------------------------------------------------------------- C03: offsets after re-encoding
 def stream_models(extra=None):
     m = {'dest.tell': lambda eng, e, a, kw: fresh('tell'), 'dest.seek': lambda eng, e, a, kw: None,
@@ -479,7 +542,7 @@ FIND_FIRST = Contract(key=f'{MP4}:SampleAuxiliaryInformationOffsetsBox.find_firs
 
 GROUP = Group(
     name='mp4', world=world,
-    contracts=[MFHD, MEHD, TREX, TFDT, TFHD, TRUN, TENC, MDHD] + EMSG + PSSH + SIDX + [BTRT, PASP, TFDT_SETATTR, TRUN_POST_ENCODE] + SAIO + [FIND_FIRST] + INLINE,
+    contracts=[MFHD, MEHD, TREX, TFDT, TFHD, TRUN, TENC, MDHD] + EMSG + PSSH + SIDX + ENCODE + [BTRT, PASP, TFDT_SETATTR, TRUN_POST_ENCODE] + SAIO + [FIND_FIRST] + INLINE,
     assumptions=[
         'C04: FieldWriter.__init__/write and FieldReader.__init__/read/get/skip (dashlive/utils/fio) are analysed as real code '
         '(inlined at every call, for the format codes the boxes under contract use); struct.pack / struct.unpack (stdlib) and '
